@@ -19,9 +19,10 @@ mv "$WT/$DEMO" /tmp/zz_demo_aside.go
 go test -vet=off -count=1 ./... > "$OUT/suite_with.log" 2>&1; SUITE=$?
 mv /tmp/zz_demo_aside.go "$WT/$DEMO"
 # 3. demo passes without the change
-git stash -q
+# (not git stash: the stash is shared between worktrees of one repository)
+git apply -R "$OUT/patch.diff"
 go test -vet=off -count=1 -run 'TestZZDemo$' "./$DEMODIR/" > "$OUT/demo_without.log" 2>&1; WITHOUT=$?
-git stash pop -q
+git apply "$OUT/patch.diff"
 echo "demo_with_change_exit=$WITH (want !=0) suite_with_change_exit=$SUITE (want 0) demo_without_change_exit=$WITHOUT (want 0)"
 # 4. run the check against /repo with the change applied
 #    TRY_VIA=mirror: /repo is busy (a sweep reads it): run a copy of /verif against the scratch
